@@ -193,6 +193,8 @@ fn type_class<I: ScanInt>() -> &'static str {
 /// One scanner call on a fresh reader: `buffered` bytes are in the buffer when the scanner is
 /// called; the rest arrives at once or byte-wise.
 pub fn run_case<I: ScanInt>(s: &[u8], offset: usize, scanner: Scanner, buffered: usize, rest_bytewise: bool) -> Vec<(String, String)> {
+    let describe = || (format!("digits/{}/{}", scanner.name(), type_class::<I>()), format!("{}::<{}>({:?}, offset {offset}) with {buffered} bytes buffered", scanner.name(), I::NAME, show(s)), replay_value::<I>(s, offset, scanner, buffered, rest_bytewise));
+    let _guard = mc_core::abortguard::enter(&describe);
     let mut problems = Vec::new();
     let b = buffered.min(s.len());
     let grain = if rest_bytewise {
@@ -364,6 +366,48 @@ fn w_family<I: ScanInt>(tier: Tier, budget: &Budget, report: &mut Report) {
 }
 
 // ------------------------------------------------------------------ S: all short strings
+
+/// Extreme start offsets: the scanners are safe functions, `offset + 8` must not wrap around into a
+/// "fast path" that loads from before the buffer. Nothing is buffered at such an offset, so every
+/// scanner must report an empty digit run: (Some(0), offset).
+fn extreme_offsets<I: ScanInt>(report: &mut Report) {
+    let texts: [&[u8]; 3] = [b"", b"12345678", b"-12345678 12345678 12345678"];
+    for t in texts {
+        for offset in [usize::MAX, usize::MAX - 1, usize::MAX - 7, usize::MAX - 8, usize::MAX - 16, usize::MAX / 2 + 1, 1 << 40] {
+            for consumed in [0usize, 8] {
+                for scanner in Scanner::ALL {
+                    report.evaluations += 1;
+                    report.transitions += 1;
+                    let describe = || {
+                        (
+                            format!("digits/{}/extreme-offset", scanner.name()),
+                            format!("{}::<{}>({:?} with {consumed} bytes advanced over, offset {offset})", scanner.name(), I::NAME, show(t)),
+                            json!({"property": "C13", "family": "extreme", "type": I::NAME, "scanner": scanner.name(), "input_hex": hex(t), "input": show(t), "offset": offset.to_string(), "consumed": consumed}),
+                        )
+                    };
+                    let _guard = mc_core::abortguard::enter(&describe);
+                    let res = catch(|| {
+                        let mut reader = DeferredReader::from_read(t);
+                        reader.request(t.len());
+                        let c = consumed.min(reader.buf_len());
+                        reader.advance(c);
+                        scanner.call::<I>(&mut reader, offset)
+                    });
+                    let problem = match &res {
+                        Err((m, l)) => Some(("panic", format!("panicked: {m} @ {}", short_loc(l)))),
+                        Ok((v, o)) if *o != offset || v.map(|x| x.parts()) != Some((false, 0)) => Some(("offset", format!("returned ({:?}, {o}); no byte is available at that offset, expected (Some(0), {offset})", v.map(|x| x.parts())))),
+                        Ok(_) => None,
+                    };
+                    report.outcome(format!("extreme:{}", problem.is_none()));
+                    if let Some((kind, what)) = problem {
+                        let key = format!("digits/{}/extreme-offset/{}", scanner.name(), kind);
+                        report.violation_with(&key, t.len() as u64, || (format!("{}::<{}>({:?} with {consumed} bytes advanced over, offset {offset}): {what}", scanner.name(), I::NAME, show(t)), json!({"property": "C13", "family": "extreme", "type": I::NAME, "scanner": scanner.name(), "input_hex": hex(t), "input": show(t), "offset": offset.to_string(), "consumed": consumed})));
+                    }
+                }
+            }
+        }
+    }
+}
 
 fn s_family<I: ScanInt>(tier: Tier, budget: &Budget, report: &mut Report) {
     let alpha = [b'-', b'0', b'1', b'9', b'x'];
@@ -603,6 +647,10 @@ macro_rules! for_types {
 pub fn run(tier: Tier, report: &mut Report) {
     let budget = Budget::new(tier.pick(35.0, 1500.0));
     k2_family(report);
+    extreme_offsets::<u32>(report);
+    extreme_offsets::<i64>(report);
+    extreme_offsets::<i8>(report);
+    report.completed.push("extreme offsets (usize::MAX-16 ..= usize::MAX, 2^63, 2^40) for all four scanners: (Some(0), offset), no panic, no wrap-around into the fast path".into());
     if tier == Tier::Quick {
         for_types!(s_family, tier, &budget, report, i8, u8, i16);
         for_types!(w_family, tier, &budget, report, i8, i32, isize, i128, u8, u32, usize, u128);
@@ -627,6 +675,21 @@ fn dispatch_case(ty: &str, s: &[u8], offset: usize, scanner: Scanner, buffered: 
 }
 
 pub fn replay(v: &Value) -> (bool, String) {
+    if v["family"] == "extreme" {
+        let t = unhex(v["input_hex"].as_str().unwrap());
+        let offset: usize = v["offset"].as_str().unwrap().parse().unwrap();
+        let consumed = v["consumed"].as_u64().unwrap() as usize;
+        let scanner = Scanner::from_name(v["scanner"].as_str().unwrap());
+        let res = catch(|| {
+            let mut reader = DeferredReader::from_read(&t[..]);
+            reader.request(t.len());
+            let c = consumed.min(reader.buf_len());
+            reader.advance(c);
+            scanner.call::<i64>(&mut reader, offset).1
+        });
+        let bad = !matches!(res, Ok(o) if o == offset);
+        return (bad, format!("{}({:?}, offset {offset}) -> {res:?}; expected offset unchanged and no panic\n", scanner.name(), show(&t)));
+    }
     let s = unhex(v["input_hex"].as_str().unwrap());
     let scanner = Scanner::from_name(v["scanner"].as_str().unwrap());
     let ty = v["type"].as_str().unwrap();
